@@ -260,7 +260,7 @@ fn history(start_neg: bool, start: &[u64], steps: &[Arg]) -> Verdict {
         if grew && (len + 1 < max_len || m.is_zero()) {
             shrank_after_growth = true;
         }
-        if seen_i.len() < 24 {
+        if seen_i.len() < 44 {
             seen_i.push((x.clone(), m.clone()));
             seen_u.push((u.clone(), um.clone()));
         }
